@@ -154,7 +154,7 @@ impl Exec {
         if let GitOp::Move { from, .. } = op {
             self.moved_from.insert(from.clone());
         }
-        if let GitOp::Commit { .. } = op {
+        if matches!(op, GitOp::Commit { .. } | GitOp::Amend { .. }) {
             let h = self.w.git(&["rev-parse", "HEAD"])?.trim().to_string();
             self.shas.push(h);
         }
@@ -451,7 +451,9 @@ impl Property for C02 {
         }
     }
     fn generate(&self, seed: u64, idx: usize, tier: Tier) -> Value {
-        serde_json::to_value(gen_c02(seed, idx, tier)).unwrap()
+        let mut sc = gen_c02(seed, idx, tier);
+        amend_some(&mut sc.ops, seed, "C02-amend", idx);
+        serde_json::to_value(sc).unwrap()
     }
     fn execute(&self, v: &Value) -> Outcome {
         match serde_json::from_value::<GitScenario>(v.clone()) {
@@ -492,6 +494,20 @@ pub struct C07Phase {
 }
 
 pub struct C07;
+
+/// One commit in five of a generated history becomes `git commit --amend`: HEAD's previous commit - which may be the
+/// checkpoint's - stops being an ancestor of HEAD (rewritten history: amend, rebase, squash). Trees, and with them
+/// every expected change set, are what they would be after a plain commit. Own generator over the finished list.
+pub fn amend_some(ops: &mut [GitOp], seed: u64, tag: &str, idx: usize) {
+    let mut rng = Rng::new(scenario_seed(seed, tag, idx));
+    for op in ops.iter_mut() {
+        if let GitOp::Commit { all } = op {
+            if rng.chance(1, 5) {
+                *op = GitOp::Amend { all: *all };
+            }
+        }
+    }
+}
 
 fn gen_c07(seed: u64, idx: usize, _tier: Tier) -> C07Scenario {
     let mut rng = Rng::new(scenario_seed(seed, "C07", idx));
@@ -757,7 +773,12 @@ impl Property for C07 {
         }
     }
     fn generate(&self, seed: u64, idx: usize, tier: Tier) -> Value {
-        serde_json::to_value(gen_c07(seed, idx, tier)).unwrap()
+        let mut sc = gen_c07(seed, idx, tier);
+        for (k, ph) in sc.phases.iter_mut().enumerate() {
+            amend_some(&mut ph.dirty, seed, "C07-amend-d", idx * 16 + k);
+            amend_some(&mut ph.edits, seed, "C07-amend-e", idx * 16 + k);
+        }
+        serde_json::to_value(sc).unwrap()
     }
     fn execute(&self, v: &Value) -> Outcome {
         match serde_json::from_value::<C07Scenario>(v.clone()) {
@@ -1154,7 +1175,9 @@ impl Property for C19 {
         }
     }
     fn generate(&self, seed: u64, idx: usize, tier: Tier) -> Value {
-        serde_json::to_value(gen_c19(seed, idx, tier)).unwrap()
+        let mut sc = gen_c19(seed, idx, tier);
+        amend_some(&mut sc.ops, seed, "C19-amend", idx);
+        serde_json::to_value(sc).unwrap()
     }
     fn execute(&self, v: &Value) -> Outcome {
         match serde_json::from_value::<GitScenario>(v.clone()) {
